@@ -418,6 +418,54 @@ let dispatch mode f =
               | EBadHex -> "5" | EUnrecognized -> "6" | EUnknownDirective -> "7" | EMalformedLabel -> "8" | ERead -> "9") ^ at l in
       String.concat " " (List.map show items)
     end
+  | "mexprloc", (arch :: data :: al :: ws :: lno :: skip :: _) ->
+    (* the located expression parser (ExprLoc.lptree) on the operand that follows the first @db / @dw / @assert
+       directive of line [lno] of a file lexed by the lexer model: where the expression is located, and where
+       each symbol it mentions was touched *)
+    let set_of s = if s = "" then [] else List.map (fun x -> int_of_string ("0x" ^ x)) (split ',' s) in
+    let alnums = set_of al and wss = set_of ws in
+    let (chars, _) = utf8_decode (unhex data) in
+    let (optab, regtab, flagtab) = (match arch with
+        | "z80" -> (z80_op_table, z80_reg_table, z80_flag_table)
+        | "sm83" -> (sm83_op_table, sm83_reg_table, sm83_flag_table)
+        | _ -> (mos_op_table, mos_reg_table, [])) in
+    let items = lex_all dir_table optab regtab flagtab
+        (fun c -> List.mem (int_of_n c) alnums) (fun c -> List.mem (int_of_n c) wss) chars in
+    let lts = ltoks_of items in
+    let want = int_of_string lno in
+    let rec find = function
+      | [] -> None
+      | (TDir (DDb | DDw | DAssert), l) :: r when int_of_n l.line = want -> Some r
+      | _ :: r -> find r in
+    let at l = Printf.sprintf "%d:%d" (int_of_n l.line) (int_of_n l.col) in
+    (* operands before the one asked for: a string, or an expression, each followed by a comma *)
+    let rec skipn k r =
+      if k = 0 then Some r else
+        let after = (match r with
+            | (TString _, _) :: r' -> Some r'
+            | _ -> (match lptree r with LOk (_, _, _, r') -> Some r' | _ -> None)) in
+        (match after with
+         | Some ((TSym SyComma, _) :: r') -> skipn (k - 1) r'
+         | _ -> None) in
+    (match (match find lts with None -> None | Some r -> skipn (int_of_string skip) r) with
+     | None -> "NOSTMT"
+     | Some r ->
+       (match lptree r with
+        | LOk (_, l, ms, _) ->
+          "OK " ^ at l ^ String.concat "" (List.map (fun ((_, s), ml) -> " " ^ hex_of_bytes s ^ "@" ^ at ml) ms)
+        | LDiag _ -> "DIAG"
+        | LCrash _ -> "PANIC"))
+  | "mtrace", [stack] ->
+    (* Trace.trace on a stack of included_from values, current source first: file-hex:line:col or - *)
+    let one s = if s = "-" then None else
+        (match split ':' s with
+         | [f; l; c] -> Some { fl_file = unhex f; fl_loc = { line = n_of_int (int_of_string l); col = n_of_int (int_of_string c) } }
+         | _ -> failwith "mtrace") in
+    let st = if stack = "" then [] else List.map one (split ',' stack) in
+    (match trace st with
+     | Ok fs -> "OK" ^ String.concat "" (List.map (fun f -> Printf.sprintf " %s:%d:%d" (hex_of_bytes f.fl_file) (int_of_n f.fl_loc.line) (int_of_n f.fl_loc.col)) fs)
+     | Diag _ -> "DIAG"
+     | Crash _ -> "PANIC")
   | "cli", [before; arch; after_args; oopen; paths_ok; img; exports] ->
     (* the decision logic of main(): argv shape and phase outcomes -> exit status and outputs *)
     let args_of s = if s = "" then [] else List.map (fun a ->
